@@ -261,3 +261,76 @@ class Summaries:
             self.active.discard(q)
         self.memo[q] = toks
         return toks
+
+
+class SitePolicy(DefaultPolicy):
+    """Only an enumerated set of call sites (by AST identity) and explicit
+    `raise` statements are exception sources.  Used by ESCAPE rules that
+    quantify over named failure kinds; incidental calls, subscripts and
+    `assert` statements (internal invariants) raise nothing."""
+
+    def __init__(self, prog, func, resolver, site_tokens, with_exit_tokens=None):
+        super().__init__(prog, func, resolver, None)
+        self.site_tokens = site_tokens            # id(call ast) -> set(tokens)
+        self.with_exit_tokens = with_exit_tokens or {}   # id(withitem) -> set(tokens)
+        self.subscripts_raise = False
+        self.asserts_raise = False
+
+    def call_raises(self, call, node):
+        return set(self.site_tokens.get(id(call), ()))
+
+    def expr_raises(self, expr, node):
+        toks = set()
+        if expr is None:
+            return toks
+        for sub in _walk_no_nested(expr):
+            if isinstance(sub, ast.Call):
+                toks |= self.call_raises(sub, node)
+        return toks
+
+    def for_raises(self, forstmt, node):
+        return set()
+
+    def with_exit_raises(self, item, node):
+        return set(self.with_exit_tokens.get(id(item), ()))
+
+
+class UserCodePolicy(DefaultPolicy):
+    """Exception sources = explicit raises + calls that run code of arbitrary
+    user objects (repr/str/format/... of a non-literal) + repository callees
+    (summarised with the same policy).  Library string functions are total."""
+
+    def __init__(self, prog, func, resolver, summaries=None):
+        super().__init__(prog, func, resolver, summaries)
+        self.subscripts_raise = False
+        self.asserts_raise = False
+
+    def call_raises(self, call, node):
+        r = self.resolver.resolve_call(self.func, call)
+        if r[0] == 'builtin' and r[1] in USERCODE_BUILTINS:
+            if any(not isinstance(a, ast.Constant) for a in call.args):
+                return {E, NONEXC}
+            return set()
+        if r[0] == 'ext' and r[1] in USERCODE_EXT:
+            return {E, NONEXC}
+        if r[0] in ('repo', 'class') and self.summaries is not None:
+            toks = set()
+            for f in self.resolver.callees(self.func, call):
+                toks |= self.summaries.escapes(f)
+            return toks
+        return set()
+
+    def expr_raises(self, expr, node):
+        toks = set()
+        if expr is None:
+            return toks
+        for sub in _walk_no_nested(expr):
+            if isinstance(sub, ast.Call):
+                toks |= self.call_raises(sub, node)
+        return toks
+
+    def for_raises(self, forstmt, node):
+        return set()
+
+    def with_exit_raises(self, item, node):
+        return set()
